@@ -65,92 +65,100 @@ deriving Repr
 
 /-- move `n` of the asset from account `a` to the vault -/
 def payIn (s : St) (a n : Nat) : Option St :=
-  if n = 0 then (if s.kind = 0 then none else some s)
-  else if getN s.ab a < n then none
+  if (n = 0 ∧ s.kind = 0) ∨ getN s.ab a < n then none
   else some { s with ab := setN s.ab a (getN s.ab a - n), bal := s.bal + n }
 
 /-- move `n` of the asset from the vault to account `a` -/
 def payOut (s : St) (a n : Nat) : Option St :=
-  if n = 0 then (if s.kind = 0 then none else some s)
-  else if s.bal < n then none
+  if (n = 0 ∧ s.kind = 0) ∨ s.bal < n then none
   else some { s with ab := setN s.ab a (getN s.ab a + n), bal := s.bal - n }
+
+/-- LP minted by a deposit of `amount`: the first deposit keeps `MINIMUM_LIQUIDITY_AMOUNT` for the
+    vault itself; later ones get `amount * total_share / total_deposits` (floor), where
+    `total_deposits` = balance − pending protocol fees, *excluding* the deposit itself (native funds
+    have already arrived and are subtracted; a cw20 `TransferFrom` lands after the computation). -/
+def depositMint (s : St) (amount : Nat) : Nat :=
+  if s.sup = 0 then amount - Gen.MINIMUM_LIQUIDITY_AMOUNT else amount * s.sup / (s.bal - s.pend)
+
+/-- every way `Deposit{amount}` with `sent` attached (native) / allowed (cw20) can fail -/
+def depositOk (s : St) (who amount sent : Nat) : Bool :=
+  decide (amount ≤ getN s.ab who)            -- bank send / cw20 TransferFrom needs the funds
+  && s.depOn                                  -- DepositsDisabled
+  && decide (s.ctr = 0)                       -- DepositDuringLoan
+  && decide (sent = amount)                   -- FundsMismatch
+  && (if s.sup = 0 then decide (Gen.MINIMUM_LIQUIDITY_AMOUNT < amount)   -- InvalidInitialLiquidityAmount
+      else decide (s.pend ≤ s.bal)            -- checked_sub of the pending fees
+        && decide (s.bal - s.pend ≠ 0)        -- checked_div by zero deposits
+        && decide (s.sup + depositMint s amount ≤ U128MAX))  -- try_into / cw20 supply overflow
+
+def depositRes (s : St) (who amount : Nat) : St :=
+  { s with
+    bal := s.bal + amount
+    ab := setN s.ab who (getN s.ab who - amount)
+    sup := s.sup + depositMint s amount + (if s.sup = 0 then Gen.MINIMUM_LIQUIDITY_AMOUNT else 0)
+    lpVault := s.lpVault + (if s.sup = 0 then Gen.MINIMUM_LIQUIDITY_AMOUNT else 0)
+    lb := setN s.lb who (getN s.lb who + depositMint s amount) }
 
 /-- `deposit`: `who` calls Deposit{amount} having attached (native) / allowed (cw20) `sent`. -/
 def deposit (s : St) (who amount sent : Nat) : Option St :=
-  -- native funds arrive before the handler runs (bank rejects an unfunded or all-zero send;
-  -- an empty funds list is fine and is what `sent = 0` stands for)
-  if s.kind = 0 ∧ getN s.ab who < sent then none else
-  let balAtHandler := if s.kind = 0 then s.bal + sent else s.bal
-  if !s.depOn then none else
-  if s.ctr ≠ 0 then none else
-  if sent ≠ amount then none else
-  if s.sup = 0 then
-    -- first deposit: amount - MINIMUM_LIQUIDITY_AMOUNT to the depositor, the minimum to the vault
-    if amount < Gen.MINIMUM_LIQUIDITY_AMOUNT then none else
-    let share := amount - Gen.MINIMUM_LIQUIDITY_AMOUNT
-    if share = 0 then none else
-    -- cw20: TransferFrom must succeed (balance; amount > 0 here)
-    if s.kind = 1 ∧ getN s.ab who < amount then none else
-    if Gen.MINIMUM_LIQUIDITY_AMOUNT = 0 then none else
-    some { s with
-      bal := s.bal + amount
-      ab := setN s.ab who (getN s.ab who - amount)
-      sup := amount
-      lpVault := s.lpVault + Gen.MINIMUM_LIQUIDITY_AMOUNT
-      lb := setN s.lb who (getN s.lb who + share) }
-  else
-    let depositAmount := if s.kind = 0 then amount else 0
-    if balAtHandler < s.pend then none else
-    if balAtHandler - s.pend < depositAmount then none else
-    let totalDeposits := balAtHandler - s.pend - depositAmount
-    if totalDeposits = 0 then none else
-    let lp := amount * s.sup / totalDeposits
-    if lp > U128MAX then none else
-    -- cw20 TransferFrom beyond the balance fails (a zero amount is fine, and so is minting zero LP)
-    if s.kind = 1 ∧ getN s.ab who < amount then none else
-    if s.sup + lp > U128MAX then none else
-    some { s with
-      bal := s.bal + amount
-      ab := setN s.ab who (getN s.ab who - amount)
-      sup := s.sup + lp
-      lb := setN s.lb who (getN s.lb who + lp) }
+  if depositOk s who amount sent then some (depositRes s who amount) else none
 
-/-- what `withdraw` pays for `lp` shares in state `s` (also the `Share` query) -/
+/-- what `withdraw` pays for `lp` shares in state `s` (also the `Share` query):
+    `Decimal::from_ratio(lp, total_share) * (balance − pending fees)`, two floors -/
 def shareOf (s : St) (lp : Nat) : Nat := (s.bal - s.pend) * (lp * E18 / s.sup) / E18
 
-/-- `withdraw`: `who` Sends `lp` LP tokens to the vault with the Withdraw hook -/
-def withdraw (s : St) (who lp : Nat) : Option St :=
-  if getN s.lb who < lp then none else
-  if !s.wdOn then none else
-  if s.bal < s.pend then none else
-  if s.sup = 0 then none else
-  let out := shareOf s lp
-  if out = 0 ∧ s.kind = 0 then none else
-  if s.bal < out then none else
-  some { s with
-    bal := s.bal - out
-    ab := setN s.ab who (getN s.ab who + out)
+def withdrawOk (s : St) (who lp : Nat) : Bool :=
+  decide (lp ≤ getN s.lb who)                 -- cw20 Send of the LP tokens
+  && s.wdOn                                   -- WithdrawsDisabled
+  && decide (s.pend ≤ s.bal)
+  && decide (s.sup ≠ 0)                       -- from_ratio divides by the total share
+  && !(decide (shareOf s lp = 0) && decide (s.kind = 0))   -- native zero-amount send fails
+  && decide (shareOf s lp ≤ s.bal)
+
+def withdrawRes (s : St) (who lp : Nat) : St :=
+  { s with
+    bal := s.bal - shareOf s lp
+    ab := setN s.ab who (getN s.ab who + shareOf s lp)
     lb := setN s.lb who (getN s.lb who - lp)
     sup := s.sup - lp }
 
-/-- `collect_protocol_fees` (anyone): pending fees go to the collector (account 4) -/
+/-- `withdraw`: `who` Sends `lp` LP tokens to the vault with the Withdraw hook -/
+def withdraw (s : St) (who lp : Nat) : Option St :=
+  if withdrawOk s who lp then some (withdrawRes s who lp) else none
+
+def collectRes (s : St) : St :=
+  { s with bal := s.bal - s.pend, ab := setN s.ab 4 (getN s.ab 4 + s.pend), pend := 0 }
+
+/-- `collect_protocol_fees` (anyone): pending fees go to the collector (account 4);
+    nothing is sent when nothing is pending -/
 def collect (s : St) : Option St :=
   if s.pend = 0 then some s
   else if s.bal < s.pend then none
-  else some { s with bal := s.bal - s.pend, ab := setN s.ab 4 (getN s.ab 4 + s.pend), pend := 0 }
+  else some (collectRes s)
+
+def afterTradeOk (s : St) (old amount : Nat) : Bool :=
+  decide (old + fee s.fees.prot amount + fee s.fees.flash amount + fee s.fees.burn amount ≤ U128MAX)
+  && decide (old + fee s.fees.prot amount + fee s.fees.flash amount + fee s.fees.burn amount ≤ s.bal)  -- NegativeProfit
+  && decide (s.pend + fee s.fees.prot amount ≤ U128MAX)
+  && decide (s.allTime + fee s.fees.prot amount ≤ U128MAX)
+  && decide (s.burned + fee s.fees.burn amount ≤ U128MAX)
+
+def afterTradeRes (s : St) (amount : Nat) : St :=
+  { s with
+    pend := s.pend + fee s.fees.prot amount
+    allTime := s.allTime + fee s.fees.prot amount
+    ctr := s.ctr - 1
+    burned := s.burned + fee s.fees.burn amount
+    bal := s.bal - fee s.fees.burn amount
+    assetSupply := s.assetSupply - fee s.fees.burn amount }
 
 /-- `after_trade` with the balance recorded when the loan was taken -/
 def afterTrade (s : St) (old amount : Nat) : Option St :=
-  let pf := fee s.fees.prot amount
-  let ff := fee s.fees.flash amount
-  let bf := fee s.fees.burn amount
-  if old + pf + ff + bf > U128MAX then none else
-  if old + pf + ff + bf > s.bal then none else
-  if s.pend + pf > U128MAX ∨ s.allTime + pf > U128MAX then none else
-  let s1 := { s with pend := s.pend + pf, allTime := s.allTime + pf, ctr := s.ctr - 1 }
-  if bf = 0 then some s1
-  else if s1.burned + bf > U128MAX then none
-  else some { s1 with burned := s1.burned + bf, bal := s1.bal - bf, assetSupply := s1.assetSupply - bf }
+  if afterTradeOk s old amount then some (afterTradeRes s amount) else none
+
+def transferOut (s : St) (to n : Nat) : Option St :=
+  if (n = 0 ∧ s.kind = 0) ∨ getN s.ab 3 < n ∨ to ≥ 3 then none
+  else some { s with ab := setN (setN s.ab 3 (getN s.ab 3 - n)) to (getN (setN s.ab 3 (getN s.ab 3 - n)) to + n) }
 
 mutual
 /-- one message of the borrower's callback; the borrower is account 3 -/
@@ -159,9 +167,7 @@ def run : St → Act → Option St
   | s, .deposit n => deposit s 3 n n
   | s, .withdraw lp => withdraw s 3 lp
   | s, .collect => collect s
-  | s, .transferOut to n =>
-      if (n = 0 ∧ s.kind = 0) ∨ getN s.ab 3 < n ∨ to ≥ 3 then none
-      else some { s with ab := setN (setN s.ab 3 (getN s.ab 3 - n)) to (getN s.ab to + n) }
+  | s, .transferOut to n => transferOut s to n
   | _, .fail => none
   | s, .loan n cb => loanFrom s n cb
 /-- the messages of a callback, in order; the first failure reverts everything -/
